@@ -105,6 +105,13 @@ def gen(rng, tier, index):
             if rng.random() < 0.6:
                 var["tail_race"] = "at_switch"
                 var["sched"].update(k=rng.choice([2, 3]), horizon=rng.choice([14, 20, 28]))
+        elif flavour in ("serial", "tcp") and rng.random() < 0.25:
+            # bytes waiting at connect, and at every Thread.start() the scheduler decides whether the new thread or its
+            # creator runs first
+            var.update(seg="lines", cuts=[], head_at_connect=rng.choice([1, 2, 3, 5]),
+                       sched={"policy": "rw", "seed": rng.getrandbits(32), "p": rng.choice([0.0, 0.0, 0.01]), "start_handoff": rng.choice([0.5, 0.8, 0.95])})
+        elif rng.random() < 0.05:
+            var.update(seg="lines", cuts=[], head_at_connect=rng.choice([1, 2, 3, 5]))
         variants.append(var)
     return {"cfg": {"version": version, "stream": stream.hex(), "line_ends": line_ends}, "ops": variants}
 
@@ -150,9 +157,16 @@ def _execute(version, stream, line_ends, variant, probes):
     try:
         try:
             gateway = world.build()
-            world.start()
-            base = len(world.device.writes)
             segs = _segments(stream, line_ends, variant["seg"], variant["cuts"])
+            base = len(world.device.writes)
+            if variant.get("head_at_connect") and len(segs) >= 2:
+                # the first lines are already waiting when the connection is established (the gateway device talks as soon as
+                # it is opened): they are handled while start() is still on its way
+                k_head = min(int(variant["head_at_connect"]), len(segs) - 1)
+                world.device.greeting = b"".join(segs[:k_head])
+                segs = segs[k_head:]
+                probes["streams_with_bytes_waiting_at_connect"] = probes.get("streams_with_bytes_waiting_at_connect", 0) + 1
+            world.start()
             # index of the last COMPLETE line among the per-line segments (a trailing unterminated fragment is not a line)
             last_line = len(segs) - 1 if stream.endswith(b"\n") else len(segs) - 2
             skip_next = False
